@@ -7,6 +7,9 @@ import (
 	"strings"
 
 	"github.com/kelindar/column"
+	"runtime"
+	"sync/atomic"
+	"time"
 )
 
 // ColDesc describes a data column: what the specification knows (Kind, Merge) and how it is
@@ -60,14 +63,26 @@ type number interface {
 	~int | ~int16 | ~int32 | ~int64 | ~uint | ~uint16 | ~uint32 | ~uint64 | ~float32 | ~float64
 }
 
+// MergeYield makes every user-supplied merge function give up the processor and take some tens of microseconds (set by the
+// real-parallelism family: a user's merge function may take any time, and other blocks commit meanwhile).
+var MergeYield int32
+
+func mergeYield() {
+	if atomic.LoadInt32(&MergeYield) != 0 {
+		runtime.Gosched()
+		time.Sleep(20 * time.Microsecond)
+	}
+}
+
 func mergeOf[T number](m string) func(v, d T) T {
 	switch m {
 	case "affine":
-		return func(v, d T) T { return 2*v + d }
+		return func(v, d T) T { mergeYield(); return 2*v + d }
 	case "replace":
-		return func(v, d T) T { return d }
+		return func(v, d T) T { mergeYield(); return d }
 	case "sat":
 		return func(v, d T) T {
+			mergeYield()
 			if v+d > 8 {
 				return 8
 			}
@@ -133,11 +148,12 @@ func MakeColumn(d ColDesc) column.Column {
 	case "record":
 		switch d.Merge {
 		case "add":
-			return column.ForRecord(func() *Rec { return new(Rec) }, column.WithMerge(func(v, x *Rec) *Rec { v.V += x.V; return v }))
+			return column.ForRecord(func() *Rec { return new(Rec) }, column.WithMerge(func(v, x *Rec) *Rec { mergeYield(); v.V += x.V; return v }))
 		case "affine":
-			return column.ForRecord(func() *Rec { return new(Rec) }, column.WithMerge(func(v, x *Rec) *Rec { v.V = 2*v.V + x.V; return v }))
+			return column.ForRecord(func() *Rec { return new(Rec) }, column.WithMerge(func(v, x *Rec) *Rec { mergeYield(); v.V = 2*v.V + x.V; return v }))
 		case "sat":
 			return column.ForRecord(func() *Rec { return new(Rec) }, column.WithMerge(func(v, x *Rec) *Rec {
+				mergeYield()
 				if v.V += x.V; v.V > 8 {
 					v.V = 8
 				}
@@ -147,12 +163,12 @@ func MakeColumn(d ColDesc) column.Column {
 		return column.ForRecord(func() *Rec { return new(Rec) })
 	case "recordvar":
 		if d.Merge == "concat" {
-			return column.ForRecord(func() *RecVar { return new(RecVar) }, column.WithMerge(func(v, x *RecVar) *RecVar { v.S += x.S; return v }))
+			return column.ForRecord(func() *RecVar { return new(RecVar) }, column.WithMerge(func(v, x *RecVar) *RecVar { mergeYield(); v.S += x.S; return v }))
 		}
 		return column.ForRecord(func() *RecVar { return new(RecVar) })
 	case "string":
 		if d.Merge == "concat" {
-			return column.ForString(column.WithMerge(func(v, x string) string { return v + x }))
+			return column.ForString(column.WithMerge(func(v, x string) string { mergeYield(); return v + x }))
 		}
 		return column.ForString()
 	case "enum":
